@@ -2,27 +2,33 @@ import RucteModel.Tpl
 import RucteProps.C15
 import RucteProps.C05Complete
 import RucteProps.C01Nodes
+import RucteProofs.SrcFrag
+import RucteProofs.SrcCond
 
 /-!
 # Source trees of the documented template syntax, with explicit layout slots
 
 `Node` is the documented body syntax of a ructe template: text, the three escapes, comments,
-`@name`, `@name(group)`, `@(group)`, `@if` chains (with `else` and `else if`), `@for`, `@match` and
-`@:name(args)`.  Every place where the grammar calls `spacelike` carries an explicit layout slot
-(`List C15.Item`: white-space runs and `@* … *@` comments).
+`@expression` (any documented expression `C05.DExpr`), `@(group)`, `@if` chains (with `else` and
+`else if`), `@for`, `@match` and `@:name(args)`.  Every place where the grammar calls `spacelike`
+carries an explicit layout slot (`List C15.Item`: white-space runs and `@* … *@` comments).
+
+The Rust fragments inside the directives are documented expressions too (`RucteProofs/SrcFrag.lean`):
+the `@if` condition is a `Cond` (`let` binding or logic expression), the `@for` loop variable a
+`ForPat`, its iterable a `LoopExpr`; the `@match` scrutinee, the arm patterns and the Rust arguments of
+a call are `C05.DExpr`.
 
 * `printNodes`   : the source text of a tree;
 * `astNodes`     : the tree (`TExpr`) the parser is documented to produce (layout-free);
 * `fuelNodes`    : the fuel the model parser needs;
 * `WF ns follow` : the explicit side conditions under which the print of `ns`, followed by the bytes
   `follow`, is parsed back to `astNodes ns` (every condition is decidable on concrete data, except
-  `C05.Stops`, for which `nameFollowB` is a decidable sufficient test);
-* `eraseNodes`   : the same tree with every layout slot emptied (`sameShape`).
+  `C05.Stops`, for which `Ructe.stopsB` is a decidable sufficient test);
+* `eraseNodes`   : the same tree with every layout slot emptied that is not part of the tree
+  (`sameShape`); the slots *inside* a logic condition of `@if` are part of the stored text and are kept.
 -/
 namespace Ructe.Src
 open Nom Ructe.C15
-
-abbrev Layout := List Item
 
 mutual
 inductive Node where
@@ -31,34 +37,39 @@ inductive Node where
   | escOpen                                 -- `@{`
   | escClose                                -- `@}`
   | comment (body : Bytes)                  -- `@*` body `*@`
-  | name (b : UInt8) (cs : Bytes)           -- `@name`
-  | nameCall (b : UInt8) (cs : Bytes) (g : List C05.Grp)   -- `@name(group)`
+  | expr (e : C05.DExpr)                    -- `@` expression
   | paren (g : List C05.Grp)                -- `@(group)`
   | ifNode (c : IfChain)                    -- `@if ` chain
-  | forIn (l₁ : Layout) (pb : UInt8) (pcs : Bytes) (l₂ l₃ : Layout) (ib : UInt8) (ics : Bytes) (l₄ : Layout)
+  | forIn (l₁ : Layout) (pat : ForPat) (l₂ l₃ : Layout) (iter : LoopExpr) (l₄ : Layout)
       (body : List Node)                    -- `@for ` L1 pat L2 `in` L3 iter L4 `{` body `}`
-  | matchOn (l₀ : Layout) (eb : UInt8) (ecs : Bytes) (l₁ : Layout) (arms : List Arm) (lEnd : Layout)
+  | matchOn (l₀ : Layout) (e : C05.DExpr) (l₁ : Layout) (arms : List Arm) (lEnd : Layout)
                                             -- `@match ` L0 e L1 `{` arms LEnd `}`
   | call (nb : UInt8) (ncs : Bytes) (args : List Arg)      -- `@:name(` args `)`
 /-- what follows `@if `: L1 cond L2 `{` body `}`, then nothing, or L3 `else` L4 `{` body2 `}`, or
 L3 `else` L4 `if` followed by another chain -/
 inductive IfChain where
-  | last (l₁ : Layout) (b : UInt8) (cs : Bytes) (l₂ : Layout) (body : List Node)
-  | els (l₁ : Layout) (b : UInt8) (cs : Bytes) (l₂ : Layout) (body : List Node) (l₃ l₄ : Layout) (body2 : List Node)
-  | elif (l₁ : Layout) (b : UInt8) (cs : Bytes) (l₂ : Layout) (body : List Node) (l₃ l₄ : Layout) (next : IfChain)
+  | last (l₁ : Layout) (c : Cond) (l₂ : Layout) (body : List Node)
+  | els (l₁ : Layout) (c : Cond) (l₂ : Layout) (body : List Node) (l₃ l₄ : Layout) (body2 : List Node)
+  | elif (l₁ : Layout) (c : Cond) (l₂ : Layout) (body : List Node) (l₃ l₄ : Layout) (next : IfChain)
 /-- one match arm: L1 pat L2 `=>` L3 `{` body `}` -/
 inductive Arm where
-  | mk (l₁ : Layout) (pb : UInt8) (pcs : Bytes) (l₂ l₃ : Layout) (body : List Node)
+  | mk (l₁ : Layout) (pat : C05.DExpr) (l₂ l₃ : Layout) (body : List Node)
 /-- one call argument, with the layout `pre` that follows the comma in front of it (the first
-argument of a call must have none): a Rust name, or `{` body `}` followed by layout -/
+argument of a call must have none): a Rust expression, or `{` body `}` followed by layout -/
 inductive Arg where
-  | rust (pre : Layout) (b : UInt8) (cs : Bytes)
+  | rust (pre : Layout) (e : C05.DExpr)
   | block (pre : Layout) (body : List Node) (after : Layout)
 end
 
 def Arg.pre : Arg → Layout
-  | .rust pre _ _ => pre
+  | .rust pre _ => pre
   | .block pre _ _ => pre
+
+/-- `@name` -/
+@[reducible] def Node.name (b : UInt8) (cs : Bytes) : Node := .expr (.last .none (.name b cs) [])
+/-- `@name(group)` -/
+@[reducible] def Node.nameCall (b : UInt8) (cs : Bytes) (g : List C05.Grp) : Node :=
+  .expr (.last .none (.name b cs) [.call g])
 
 /-! ## the printer -/
 
@@ -69,37 +80,36 @@ def printNode : Node → Bytes
   | .escOpen => [64, 123]
   | .escClose => [64, 125]
   | .comment body => [64, 42] ++ body ++ [42, 64]
-  | .name b cs => 64 :: b :: cs
-  | .nameCall b cs g => 64 :: (b :: cs ++ [40] ++ C05.Grp.printL g ++ [41])
+  | .expr e => 64 :: e.print
   | .paren g => [64, 40] ++ C05.Grp.printL g ++ [41]
   | .ifNode c => [64, 105, 102, 32] ++ printChain c
-  | .forIn l₁ pb pcs l₂ l₃ ib ics l₄ body =>
-    [64, 102, 111, 114, 32] ++ printLayout l₁ ++ (pb :: pcs) ++ printLayout l₂ ++ [105, 110] ++ printLayout l₃ ++
-      (ib :: ics) ++ printLayout l₄ ++ [123] ++ printNodes body ++ [125]
-  | .matchOn l₀ eb ecs l₁ arms lEnd =>
-    [64, 109, 97, 116, 99, 104, 32] ++ printLayout l₀ ++ (eb :: ecs) ++ printLayout l₁ ++ [123] ++ printArms arms ++
+  | .forIn l₁ pat l₂ l₃ iter l₄ body =>
+    [64, 102, 111, 114, 32] ++ printLayout l₁ ++ pat.print ++ printLayout l₂ ++ [105, 110] ++ printLayout l₃ ++
+      iter.print ++ printLayout l₄ ++ [123] ++ printNodes body ++ [125]
+  | .matchOn l₀ e l₁ arms lEnd =>
+    [64, 109, 97, 116, 99, 104, 32] ++ printLayout l₀ ++ e.print ++ printLayout l₁ ++ [123] ++ printArms arms ++
       printLayout lEnd ++ [125]
   | .call nb ncs args => [64, 58] ++ (nb :: ncs) ++ [40] ++ printArgs args ++ [41]
 def printNodes : List Node → Bytes
   | [] => []
   | x :: r => printNode x ++ printNodes r
 def printChain : IfChain → Bytes
-  | .last l₁ b cs l₂ body => printLayout l₁ ++ (b :: cs) ++ printLayout l₂ ++ [123] ++ printNodes body ++ [125]
-  | .els l₁ b cs l₂ body l₃ l₄ body2 =>
-    printLayout l₁ ++ (b :: cs) ++ printLayout l₂ ++ [123] ++ printNodes body ++ [125] ++
+  | .last l₁ c l₂ body => printLayout l₁ ++ c.print ++ printLayout l₂ ++ [123] ++ printNodes body ++ [125]
+  | .els l₁ c l₂ body l₃ l₄ body2 =>
+    printLayout l₁ ++ c.print ++ printLayout l₂ ++ [123] ++ printNodes body ++ [125] ++
       printLayout l₃ ++ [101, 108, 115, 101] ++ printLayout l₄ ++ [123] ++ printNodes body2 ++ [125]
-  | .elif l₁ b cs l₂ body l₃ l₄ next =>
-    printLayout l₁ ++ (b :: cs) ++ printLayout l₂ ++ [123] ++ printNodes body ++ [125] ++
+  | .elif l₁ c l₂ body l₃ l₄ next =>
+    printLayout l₁ ++ c.print ++ printLayout l₂ ++ [123] ++ printNodes body ++ [125] ++
       printLayout l₃ ++ [101, 108, 115, 101] ++ printLayout l₄ ++ [105, 102] ++ printChain next
 def printArm : Arm → Bytes
-  | .mk l₁ pb pcs l₂ l₃ body =>
-    printLayout l₁ ++ (pb :: pcs) ++ printLayout l₂ ++ [61, 62] ++ printLayout l₃ ++ [123] ++ printNodes body ++ [125]
+  | .mk l₁ pat l₂ l₃ body =>
+    printLayout l₁ ++ pat.print ++ printLayout l₂ ++ [61, 62] ++ printLayout l₃ ++ [123] ++ printNodes body ++ [125]
 def printArms : List Arm → Bytes
   | [] => []
   | a :: r => printArm a ++ printArms r
 /-- an argument with the layout in front of it -/
 def printArg : Arg → Bytes
-  | .rust pre b cs => printLayout pre ++ (b :: cs)
+  | .rust pre e => printLayout pre ++ e.print
   | .block pre body after => printLayout pre ++ [123] ++ printNodes body ++ [125] ++ printLayout after
 /-- the arguments after the first one, each with its comma -/
 def printMore : List Arg → Bytes
@@ -119,27 +129,26 @@ def astNode : Node → TExpr
   | .escOpen => .text [123]
   | .escClose => .text [125]
   | .comment _ => .comment
-  | .name b cs => .expr (b :: cs)
-  | .nameCall b cs g => .expr (b :: cs ++ [40] ++ C05.Grp.printL g ++ [41])
+  | .expr e => .expr e.print
   | .paren g => .expr ([40] ++ C05.Grp.printL g ++ [41])
   | .ifNode c => astChain c
-  | .forIn _ pb pcs _ _ ib ics _ body => .forLoop (pb :: pcs) (ib :: ics) (astNodes body)
-  | .matchOn _ eb ecs _ arms _ => .matchBlock (eb :: ecs) (astArms arms)
+  | .forIn _ pat _ _ iter _ body => .forLoop pat.value iter.value (astNodes body)
+  | .matchOn _ e _ arms _ => .matchBlock e.print (astArms arms)
   | .call nb ncs args => .call (nb :: ncs) (astArgs args)
 def astNodes : List Node → List TExpr
   | [] => []
   | x :: r => astNode x :: astNodes r
 def astChain : IfChain → TExpr
-  | .last _ b cs _ body => .ifBlock (b :: cs) (astNodes body) none
-  | .els _ b cs _ body _ _ body2 => .ifBlock (b :: cs) (astNodes body) (some (astNodes body2))
-  | .elif _ b cs _ body _ _ next => .ifBlock (b :: cs) (astNodes body) (some [astChain next])
+  | .last _ c _ body => .ifBlock c.value (astNodes body) none
+  | .els _ c _ body _ _ body2 => .ifBlock c.value (astNodes body) (some (astNodes body2))
+  | .elif _ c _ body _ _ next => .ifBlock c.value (astNodes body) (some [astChain next])
 def astArm : Arm → Bytes × List TExpr
-  | .mk _ pb pcs _ _ body => (pb :: pcs, astNodes body)
+  | .mk _ pat _ _ body => (pat.print, astNodes body)
 def astArms : List Arm → List (Bytes × List TExpr)
   | [] => []
   | a :: r => astArm a :: astArms r
 def astArg : Arg → TArg
-  | .rust _ b cs => .rust (b :: cs)
+  | .rust _ e => .rust e.print
   | .block _ body _ => .body (astNodes body)
 def astArgs : List Arg → List TArg
   | [] => []
@@ -153,30 +162,29 @@ end
 mutual
 def fuelNode : Node → Nat
   | .text _ | .escAt | .escOpen | .escClose | .comment _ => 1
-  | .name _ _ => 4
-  | .nameCall _ _ g => 2 * C05.Grp.depthL g + 5
+  | .expr e => e.fuel + 1
   | .paren g => 2 * C05.Grp.depthL g + 3
   | .ifNode c => fuelChain c + 1
-  | .forIn _ _ _ _ _ _ _ _ body => max (fuelNodes body + 3) 5
-  | .matchOn _ _ _ _ arms _ => max (fuelArms arms + 1) 4
+  | .forIn _ pat _ _ iter _ body => max (fuelNodes body + 1) (max pat.fuel iter.fuel) + 1
+  | .matchOn _ e _ arms _ => max (fuelArms arms) e.fuel + 1
   | .call _ _ args => max (fuelArgs args + 2) 4
 def fuelNodes : List Node → Nat
   | [] => 0
   | x :: r => max (fuelNode x) (fuelNodes r)
 /-- fuel of `if2` -/
 def fuelChain : IfChain → Nat
-  | .last _ _ _ _ body => max (fuelNodes body + 2) 4
-  | .els _ _ _ _ body _ _ body2 => max (max (fuelNodes body) (fuelNodes body2) + 2) 4
-  | .elif _ _ _ _ body _ _ next => max (max (fuelNodes body + 2) 4) (fuelChain next + 1)
+  | .last _ c _ body => max (fuelNodes body + 1) c.fuel + 1
+  | .els _ c _ body _ _ body2 => max (max (fuelNodes body) (fuelNodes body2) + 1) c.fuel + 1
+  | .elif _ c _ body _ _ next => max (max (fuelNodes body + 1) c.fuel) (fuelChain next) + 1
 /-- fuel of the arm parser (`expression n`, `templateBlock n`) -/
 def fuelArm : Arm → Nat
-  | .mk _ _ _ _ _ body => max (fuelNodes body + 1) 3
+  | .mk _ pat _ _ body => max (fuelNodes body + 1) pat.fuel
 def fuelArms : List Arm → Nat
   | [] => 0
   | a :: r => max (fuelArm a) (fuelArms r)
 /-- `n` such that `templateArgument (n + 1)` takes the argument -/
 def fuelArg : Arg → Nat
-  | .rust _ _ _ => 3
+  | .rust _ e => e.fuel
   | .block _ body _ => max (fuelNodes body) 1
 def fuelArgs : List Arg → Nat
   | [] => 0
@@ -184,9 +192,6 @@ def fuelArgs : List Arg → Nat
 end
 
 /-! ## well-formedness -/
-
-/-- every item of a layout slot is admissible -/
-abbrev LayoutOk (l : Layout) : Prop := ∀ i ∈ l, i.ok = true
 
 /-- a plain Rust name -/
 def NameOk (b : UInt8) (cs : Bytes) : Prop := C05.isNameStart b = true ∧ cs.all C05.isNameChar = true
@@ -198,17 +203,20 @@ def textEndB : Bytes → Bool
   | [] => true
   | b :: _ => b == 64 || b == 123 || b == 125
 
-/-- what follows does not continue a name -/
-def nameEndB : Bytes → Bool
-  | [] => true
-  | c :: _ => !C05.isNameChar c
-
 /-- the input after `@` is not one of the keywords `if `, `for `, `match ` -/
 def noKeywordB : Bytes → Bool
   | 105 :: 102 :: 32 :: _ => false
   | 102 :: 111 :: 114 :: 32 :: _ => false
   | 109 :: 97 :: 116 :: 99 :: 104 :: 32 :: _ => false
   | _ => true
+
+/-- the text after `@` is handed to `expression` (the last arm of the dispatcher): it starts with none
+of `*` (comment), `:` (call), `@`, `{`, `}` (escapes), `(` (parenthesised expression), and with none of
+the keywords `if `, `for `, `match ` -/
+def dispatchB (inp : Bytes) : Bool :=
+  match inp with
+  | 42 :: _ | 58 :: _ | 64 :: _ | 123 :: _ | 125 :: _ | 40 :: _ => false
+  | _ => noKeywordB inp
 
 /-- what follows an `@if` without `else` is not taken as an `else` branch: after layout it does not
 continue with `else`, or that `else` is followed (after layout) neither by `{` nor by `if` -/
@@ -224,11 +232,6 @@ def noElseB (follow : Bytes) : Bool :=
       | _ => true
   | _ => true
 
-/-- a condition: a plain name that does not start with `let` -/
-def CondOk (b : UInt8) (cs : Bytes) : Prop := NameOk b cs ∧ (b :: cs).take 3 ≠ [108, 101, 116]
-
-instance (b : UInt8) (cs : Bytes) : Decidable (CondOk b cs) := by unfold CondOk; infer_instance
-
 /-- documented group content: well-formed and valid UTF-8 -/
 def GroupOk (g : List C05.Grp) : Prop := C05.Grp.wfL g = true ∧ validUtf8 (C05.Grp.printL g) = true
 
@@ -242,39 +245,39 @@ def WFNode : Node → Bytes → Prop
   | .escOpen, _ => True
   | .escClose, _ => True
   | .comment body, _ => noStarAt (body ++ [42]) = true
-  | .name b cs, follow => NameOk b cs ∧ noKeywordB (b :: cs ++ follow) = true ∧ nameEndB follow = true ∧ C05.Stops follow
-  | .nameCall b cs g, follow => NameOk b cs ∧ GroupOk g ∧ C05.Stops follow
+  | .expr e, follow =>
+    e.wf = true ∧ dispatchB (e.print ++ follow) = true ∧ e.follows follow = true ∧ C05.Stops follow
   | .paren g, _ => GroupOk g
   | .ifNode c, follow => WFChain c follow
-  | .forIn l₁ pb pcs l₂ l₃ ib ics l₄ body, follow =>
-    LayoutOk l₁ ∧ LayoutOk l₂ ∧ LayoutOk l₃ ∧ LayoutOk l₄ ∧ l₂ ≠ [] ∧ l₄ ≠ [] ∧ NameOk pb pcs ∧ NameOk ib ics ∧
-      WF body (125 :: follow)
-  | .matchOn l₀ eb ecs l₁ arms lEnd, follow =>
-    LayoutOk l₀ ∧ LayoutOk l₁ ∧ LayoutOk lEnd ∧ l₁ ≠ [] ∧ NameOk eb ecs ∧ WFArms arms (printLayout lEnd ++ 125 :: follow)
+  | .forIn l₁ pat l₂ l₃ iter l₄ body, follow =>
+    LayoutOk l₁ ∧ LayoutOk l₂ ∧ LayoutOk l₃ ∧ LayoutOk l₄ ∧ (pat.bare = true → l₂ ≠ []) ∧ l₄ ≠ [] ∧ pat.wf = true ∧
+      iter.wf = true ∧ WF body (125 :: follow)
+  | .matchOn l₀ e l₁ arms lEnd, follow =>
+    LayoutOk l₀ ∧ LayoutOk l₁ ∧ LayoutOk lEnd ∧ l₁ ≠ [] ∧ e.wf = true ∧ WFArms arms (printLayout lEnd ++ 125 :: follow)
   | .call nb ncs args, follow => NameOk nb ncs ∧ WFArgs args (41 :: follow)
 /-- `WF ns follow`: every node is well-formed with respect to what follows it -/
 def WF : List Node → Bytes → Prop
   | [], _ => True
   | x :: r, follow => WFNode x (printNodes r ++ follow) ∧ WF r follow
 def WFChain : IfChain → Bytes → Prop
-  | .last l₁ b cs l₂ body, follow =>
-    LayoutOk l₁ ∧ LayoutOk l₂ ∧ l₂ ≠ [] ∧ CondOk b cs ∧ WF body (125 :: follow) ∧ noElseB follow = true
-  | .els l₁ b cs l₂ body l₃ l₄ body2, follow =>
-    LayoutOk l₁ ∧ LayoutOk l₂ ∧ l₂ ≠ [] ∧ CondOk b cs ∧ LayoutOk l₃ ∧ LayoutOk l₄ ∧
+  | .last l₁ c l₂ body, follow =>
+    LayoutOk l₁ ∧ LayoutOk l₂ ∧ l₂ ≠ [] ∧ c.wf = true ∧ WF body (125 :: follow) ∧ noElseB follow = true
+  | .els l₁ c l₂ body l₃ l₄ body2, follow =>
+    LayoutOk l₁ ∧ LayoutOk l₂ ∧ l₂ ≠ [] ∧ c.wf = true ∧ LayoutOk l₃ ∧ LayoutOk l₄ ∧
       WF body (125 :: (printLayout l₃ ++ 101 :: 108 :: 115 :: 101 :: (printLayout l₄ ++ 123 :: (printNodes body2 ++ 125 :: follow)))) ∧
       WF body2 (125 :: follow)
-  | .elif l₁ b cs l₂ body l₃ l₄ next, follow =>
-    LayoutOk l₁ ∧ LayoutOk l₂ ∧ l₂ ≠ [] ∧ CondOk b cs ∧ LayoutOk l₃ ∧ LayoutOk l₄ ∧
+  | .elif l₁ c l₂ body l₃ l₄ next, follow =>
+    LayoutOk l₁ ∧ LayoutOk l₂ ∧ l₂ ≠ [] ∧ c.wf = true ∧ LayoutOk l₃ ∧ LayoutOk l₄ ∧
       WF body (125 :: (printLayout l₃ ++ 101 :: 108 :: 115 :: 101 :: (printLayout l₄ ++ 105 :: 102 :: (printChain next ++ follow)))) ∧
       WFChain next follow
 def WFArm : Arm → Bytes → Prop
-  | .mk l₁ pb pcs l₂ l₃ body, follow =>
-    LayoutOk l₁ ∧ LayoutOk l₂ ∧ LayoutOk l₃ ∧ NameOk pb pcs ∧ WF body (125 :: follow)
+  | .mk l₁ pat l₂ l₃ body, follow =>
+    LayoutOk l₁ ∧ LayoutOk l₂ ∧ LayoutOk l₃ ∧ pat.wf = true ∧ WF body (125 :: follow)
 def WFArms : List Arm → Bytes → Prop
   | [], _ => True
   | a :: r, follow => WFArm a (printArms r ++ follow) ∧ WFArms r follow
 def WFArg : Arg → Bytes → Prop
-  | .rust pre b cs, _ => LayoutOk pre ∧ NameOk b cs
+  | .rust pre e, _ => LayoutOk pre ∧ e.wf = true
   | .block pre body after, follow => LayoutOk pre ∧ LayoutOk after ∧ WF body (125 :: (printLayout after ++ follow))
 /-- the arguments after the first one -/
 def WFMore : List Arg → Bytes → Prop
@@ -291,57 +294,60 @@ end
 mutual
 def eraseNode : Node → Node
   | .ifNode c => .ifNode (eraseChain c)
-  | .forIn _ pb pcs _ _ ib ics _ body => .forIn [] pb pcs [] [] ib ics [] (eraseNodes body)
-  | .matchOn _ eb ecs _ arms _ => .matchOn [] eb ecs [] (eraseArms arms) []
+  | .forIn _ pat _ _ iter _ body => .forIn [] pat.erase [] [] iter [] (eraseNodes body)
+  | .matchOn _ e _ arms _ => .matchOn [] e [] (eraseArms arms) []
   | .call nb ncs args => .call nb ncs (eraseArgs args)
   | x => x
 def eraseNodes : List Node → List Node
   | [] => []
   | x :: r => eraseNode x :: eraseNodes r
 def eraseChain : IfChain → IfChain
-  | .last _ b cs _ body => .last [] b cs [] (eraseNodes body)
-  | .els _ b cs _ body _ _ body2 => .els [] b cs [] (eraseNodes body) [] [] (eraseNodes body2)
-  | .elif _ b cs _ body _ _ next => .elif [] b cs [] (eraseNodes body) [] [] (eraseChain next)
+  | .last _ c _ body => .last [] c.erase [] (eraseNodes body)
+  | .els _ c _ body _ _ body2 => .els [] c.erase [] (eraseNodes body) [] [] (eraseNodes body2)
+  | .elif _ c _ body _ _ next => .elif [] c.erase [] (eraseNodes body) [] [] (eraseChain next)
 def eraseArm : Arm → Arm
-  | .mk _ pb pcs _ _ body => .mk [] pb pcs [] [] (eraseNodes body)
+  | .mk _ pat _ _ body => .mk [] pat [] [] (eraseNodes body)
 def eraseArms : List Arm → List Arm
   | [] => []
   | a :: r => eraseArm a :: eraseArms r
 def eraseArg : Arg → Arg
-  | .rust _ b cs => .rust [] b cs
+  | .rust _ e => .rust [] e
   | .block _ body _ => .block [] (eraseNodes body) []
 def eraseArgs : List Arg → List Arg
   | [] => []
   | a :: r => eraseArg a :: eraseArgs r
 end
 
-/-- two source trees differ only in their layout slots -/
+/-- two source trees differ only in the layout slots that are not part of the tree (all of them except
+those inside a logic condition of `@if`) and in the spaces after the commas of a tuple loop variable -/
 def sameShape (ns₁ ns₂ : List Node) : Prop := eraseNodes ns₁ = eraseNodes ns₂
 
 /-! ## the intended tree and the fuel do not depend on the layout -/
 
 mutual
 theorem astNode_erase : (x : Node) → astNode (eraseNode x) = astNode x
-  | .text _ | .escAt | .escOpen | .escClose | .comment _ | .name _ _ | .nameCall _ _ _ | .paren _ => by
+  | .text _ | .escAt | .escOpen | .escClose | .comment _ | .expr _ | .paren _ => by
     simp [eraseNode]
   | .ifNode c => by simp [eraseNode, astNode, astChain_erase c]
-  | .forIn _ _ _ _ _ _ _ _ body => by simp [eraseNode, astNode, astNodes_erase body]
-  | .matchOn _ _ _ _ arms _ => by simp [eraseNode, astNode, astArms_erase arms]
+  | .forIn _ pat _ _ _ _ body => by simp [eraseNode, astNode, astNodes_erase body, ForPat.value_erase]
+  | .matchOn _ _ _ arms _ => by simp [eraseNode, astNode, astArms_erase arms]
   | .call _ _ args => by simp [eraseNode, astNode, astArgs_erase args]
 theorem astNodes_erase : (ns : List Node) → astNodes (eraseNodes ns) = astNodes ns
   | [] => by simp [eraseNodes]
   | x :: r => by simp [eraseNodes, astNodes, astNode_erase x, astNodes_erase r]
 theorem astChain_erase : (c : IfChain) → astChain (eraseChain c) = astChain c
-  | .last _ _ _ _ body => by simp [eraseChain, astChain, astNodes_erase body]
-  | .els _ _ _ _ body _ _ body2 => by simp [eraseChain, astChain, astNodes_erase body, astNodes_erase body2]
-  | .elif _ _ _ _ body _ _ next => by simp [eraseChain, astChain, astNodes_erase body, astChain_erase next]
+  | .last _ _ _ body => by simp [eraseChain, astChain, astNodes_erase body, Cond.value_erase]
+  | .els _ _ _ body _ _ body2 => by
+    simp [eraseChain, astChain, astNodes_erase body, astNodes_erase body2, Cond.value_erase]
+  | .elif _ _ _ body _ _ next => by
+    simp [eraseChain, astChain, astNodes_erase body, astChain_erase next, Cond.value_erase]
 theorem astArm_erase : (a : Arm) → astArm (eraseArm a) = astArm a
-  | .mk _ _ _ _ _ body => by simp [eraseArm, astArm, astNodes_erase body]
+  | .mk _ _ _ _ body => by simp [eraseArm, astArm, astNodes_erase body]
 theorem astArms_erase : (as : List Arm) → astArms (eraseArms as) = astArms as
   | [] => by simp [eraseArms]
   | a :: r => by simp [eraseArms, astArms, astArm_erase a, astArms_erase r]
 theorem astArg_erase : (a : Arg) → astArg (eraseArg a) = astArg a
-  | .rust _ _ _ => by simp [eraseArg, astArg]
+  | .rust _ _ => by simp [eraseArg, astArg]
   | .block _ body _ => by simp [eraseArg, astArg, astNodes_erase body]
 theorem astArgs_erase : (as : List Arg) → astArgs (eraseArgs as) = astArgs as
   | [] => by simp [eraseArgs]
@@ -350,26 +356,28 @@ end
 
 mutual
 theorem fuelNode_erase : (x : Node) → fuelNode (eraseNode x) = fuelNode x
-  | .text _ | .escAt | .escOpen | .escClose | .comment _ | .name _ _ | .nameCall _ _ _ | .paren _ => by
+  | .text _ | .escAt | .escOpen | .escClose | .comment _ | .expr _ | .paren _ => by
     simp [eraseNode]
   | .ifNode c => by simp [eraseNode, fuelNode, fuelChain_erase c]
-  | .forIn _ _ _ _ _ _ _ _ body => by simp [eraseNode, fuelNode, fuelNodes_erase body]
-  | .matchOn _ _ _ _ arms _ => by simp [eraseNode, fuelNode, fuelArms_erase arms]
+  | .forIn _ pat _ _ _ _ body => by simp [eraseNode, fuelNode, fuelNodes_erase body, ForPat.fuel_erase]
+  | .matchOn _ _ _ arms _ => by simp [eraseNode, fuelNode, fuelArms_erase arms]
   | .call _ _ args => by simp [eraseNode, fuelNode, fuelArgs_erase args]
 theorem fuelNodes_erase : (ns : List Node) → fuelNodes (eraseNodes ns) = fuelNodes ns
   | [] => by simp [eraseNodes]
   | x :: r => by simp [eraseNodes, fuelNodes, fuelNode_erase x, fuelNodes_erase r]
 theorem fuelChain_erase : (c : IfChain) → fuelChain (eraseChain c) = fuelChain c
-  | .last _ _ _ _ body => by simp [eraseChain, fuelChain, fuelNodes_erase body]
-  | .els _ _ _ _ body _ _ body2 => by simp [eraseChain, fuelChain, fuelNodes_erase body, fuelNodes_erase body2]
-  | .elif _ _ _ _ body _ _ next => by simp [eraseChain, fuelChain, fuelNodes_erase body, fuelChain_erase next]
+  | .last _ _ _ body => by simp [eraseChain, fuelChain, fuelNodes_erase body, Cond.fuel_erase]
+  | .els _ _ _ body _ _ body2 => by
+    simp [eraseChain, fuelChain, fuelNodes_erase body, fuelNodes_erase body2, Cond.fuel_erase]
+  | .elif _ _ _ body _ _ next => by
+    simp [eraseChain, fuelChain, fuelNodes_erase body, fuelChain_erase next, Cond.fuel_erase]
 theorem fuelArm_erase : (a : Arm) → fuelArm (eraseArm a) = fuelArm a
-  | .mk _ _ _ _ _ body => by simp [eraseArm, fuelArm, fuelNodes_erase body]
+  | .mk _ _ _ _ body => by simp [eraseArm, fuelArm, fuelNodes_erase body]
 theorem fuelArms_erase : (as : List Arm) → fuelArms (eraseArms as) = fuelArms as
   | [] => by simp [eraseArms]
   | a :: r => by simp [eraseArms, fuelArms, fuelArm_erase a, fuelArms_erase r]
 theorem fuelArg_erase : (a : Arg) → fuelArg (eraseArg a) = fuelArg a
-  | .rust _ _ _ => by simp [eraseArg, fuelArg]
+  | .rust _ _ => by simp [eraseArg, fuelArg]
   | .block _ body _ => by simp [eraseArg, fuelArg, fuelNodes_erase body]
 theorem fuelArgs_erase : (as : List Arg) → fuelArgs (eraseArgs as) = fuelArgs as
   | [] => by simp [eraseArgs]
@@ -382,62 +390,10 @@ theorem sameShape_ast {ns₁ ns₂ : List Node} (h : sameShape ns₁ ns₂) : as
 theorem sameShape_fuel {ns₁ ns₂ : List Node} (h : sameShape ns₁ ns₂) : fuelNodes ns₁ = fuelNodes ns₂ := by
   rw [← fuelNodes_erase ns₁, ← fuelNodes_erase ns₂, h]
 
-/-! ## a decidable sufficient test for `C05.Stops` -/
+/-! ## a decidable sufficient test for `C05.Stops`
 
-/-- what stops an expression chain, decided on the first two bytes: the end of input; a `.` that is
-not followed by an expression start; a single `:`; any byte other than `.`, `:`, `(`, `{`, `[`, `!` -/
-def stopsB : Bytes → Bool
-  | [] => true
-  | [46] => true
-  | 46 :: c :: _ => noExprStart c
-  | [58] => true
-  | 58 :: c :: _ => c != 58
-  | c :: _ => c != 40 && c != 123 && c != 91 && c != 33
+`Ructe.stopsB` (`RucteProofs/ChainLemmas.lean`) with `C05.stops_classes`. -/
 
-theorem chainStep_colon (m : Nat) (inp : Bytes) (h : inp = [58] ∨ ∃ c x, inp = 58 :: c :: x ∧ c ≠ 58) :
-    chainStep (m + 1) inp = .err [] := by
-  have h1 : tag [46] inp = .err [] := tag_ne _ _ _ (fun x e => by rcases h with rfl | ⟨c, y, rfl, _⟩ <;> cases e)
-  have h2 : tag [58, 58] inp = .err [] := by
-    rcases h with rfl | ⟨c, y, rfl, hc⟩
-    · rfl
-    · simp [tag, isPrefix, Ne.symm hc]
-  have h3 := exprInParens_head m inp (fun x e => by rcases h with rfl | ⟨c, y, rfl, _⟩ <;> cases e)
-  have h4 := exprInBraces_head m inp (fun x e => by rcases h with rfl | ⟨c, y, rfl, _⟩ <;> cases e)
-  have h5 := exprInBrackets_head m inp (fun x e => by rcases h with rfl | ⟨c, y, rfl, _⟩ <;> cases e)
-  have h6 : tag [33] inp = .err [] := tag_ne _ _ _ (fun x e => by rcases h with rfl | ⟨c, y, rfl, _⟩ <;> cases e)
-  simp only [chainStep, alt, orElse, value_err () (preceded_err_left (context_err _ h1)),
-    value_err () (preceded_err_left h2), value_err () h3, value_err () h4, value_err () h5,
-    value_err () (preceded_err_left h6)]
-
-theorem stopsB_sound (f : Bytes) (h : stopsB f = true) : C05.Stops f := by
-  rw [C05.stops_iff]
-  intro n hn
-  obtain ⟨m, rfl⟩ : ∃ m, n = m + 2 := ⟨n - 2, by omega⟩
-  unfold stopsB at h
-  split at h
-  · exact ⟨_, chainStep_stop (m + 1) [] (fun _ _ e => by simp at e)⟩
-  · exact ⟨_, chainStep_dot (m + 1) _ (expression_head m [] (fun _ _ e => by simp at e))⟩
-  · next c x =>
-    refine ⟨_, chainStep_dot (m + 1) _ (expression_head m (c :: x) ?_)⟩
-    intro b' y e
-    obtain ⟨rfl, _⟩ := List.cons.inj e
-    exact h
-  · exact ⟨_, chainStep_colon (m + 1) _ (.inl rfl)⟩
-  · next c x =>
-    exact ⟨_, chainStep_colon (m + 1) _ (.inr ⟨c, x, rfl, by simpa using h⟩)⟩
-  · next c x h46 h46' h58 h58' =>
-    refine ⟨_, chainStep_stop (m + 1) _ ?_⟩
-    intro b' y e
-    obtain ⟨rfl, _⟩ := List.cons.inj e
-    simp only [Bool.and_eq_true, bne_iff_ne, ne_eq] at h
-    refine ⟨?_, ?_, h.1.1.1, h.1.1.2, h.1.2, h.2⟩
-    · intro hc
-      cases x with
-      | nil => exact h46 hc rfl
-      | cons d t => exact h46' d t hc rfl
-    · intro hc
-      cases x with
-      | nil => exact h58 hc rfl
-      | cons d t => exact h58' d t hc rfl
+theorem stopsB_sound (f : Bytes) (h : Ructe.stopsB f = true) : C05.Stops f := C05.stops_classes f h
 
 end Ructe.Src
